@@ -50,7 +50,7 @@ func OverlappingTables(tables []TableMeta, kr KeyRange) (int, int) {
 		return utils.CompareKeys(kr.Left, tables[i].MaxKey) <= 0
 	})
 	right := sort.Search(len(tables), func(i int) bool {
-		return utils.CompareKeys(kr.Right, tables[i].MaxKey) < 0
+		return utils.CompareKeys(kr.Right, tables[i].MinKey) < 0
 	})
 	return left, right
 }
